@@ -11,16 +11,16 @@ TEXT = {
  "C03": "Lean theorems: Token::new = enc, decoded∘new = id, dec∘enc = id, enc∘dec = id on valid tokens (bijection), from_encoded accepts exactly validTok, verbatim, truthful errors. Correspondence on an exhaustive small alphabet scope + long random strings; independent escape/unescape oracles on the real crate.",
  "C04": "Lean theorems: tokens(from_tokens L) decoded = L, count, text = concat('/'+enc l), from_tokens(tokens p) = p, injectivity both ways, every accessor and builder equals the list operation. Correspondence: all accessor fields of the real crate vs model on generated lists and pointer texts; Vec<String> reference oracle.",
  "C05": "Lean theorems: the resolve loop = RFC 6901 walk over the token list (success, location, first failing step and kind), result is the node at the returned location, every node is addressable by its spelled path and only by it, no panic. Correspondence: location computed from the real reference's address, error kind, on tiny-grammar exhaustive + generated documents; independent walker oracle.",
- "C06": "Lean theorems: assign (document afterwards, returned value, failure kind) = the declarative assignSpec; expand = expandSpec; the rules spelled out on top of a resolvable prefix. Correspondence: resulting document and result of the real crate vs model vs spec.",
- "C07": "Lean theorems about the model's assign: atomic, read_your_write (with '-' as new last index), frame for every pointer neither on nor below the path, replaced_some, replaced_none ⇒ Preserved, idempotent. The six laws are also evaluated directly on the real crate for every generated case.",
+ "C06": "`Assign::assign` → `assign_value` → `assign_array` / `assign_object` / `assign_scalar` → `expand` (all of src/assign.rs's walk, both backends; `&mut` references as document locations), Index::from_str and Index::for_len_incl",
+ "C07": "`Assign::assign` → `assign_value` → `assign_array` / `assign_object` / `assign_scalar` → `expand` (all of src/assign.rs's walk, both backends; `&mut` references as document locations), Index::from_str and Index::for_len_incl",
  "C08": "Lean theorems: delete = deleteSpec (walk + removeAt), Some iff resolves, None ⇒ unchanged, never panics (Vec::remove guarded by for_len), root. Correspondence on documents/pointers aimed at index = len, len+1, '-', empty arrays; laws on the real crate.",
- "C09": "Lean theorems: resolve_mut (through parse_index) = resolve for every text, write-through = setAt at the resolved location with frame and ancestor-shape lemmas, delete backend-independent off the root. The agreement of the six separately written Rust walks is decided by running all of them on the same lines (json vs toml vs model).",
- "C10": "Lean theorems: single-step refinement of assign/delete/resolve/write to the reference tree store and its lift to every finite history by induction (history_refines), no step panics, every node of every reached document addressable, WF preserved. Correspondence: lock-step histories generated against the live document.",
+ "C09": "the four `resolve`/`resolve_mut` walks, both `delete` impls and `Assign::assign` → `assign_value` → `assign_array` / `assign_object` / `assign_scalar` → `expand` (all of src/assign.rs's walk, both backends; `&mut` references as document locations), `parse_index`, `Index::from_str`, `Index::for_len`",
+ "C10": "every call a history can make: `Assign::assign` → `assign_value` → `assign_array` / `assign_object` / `assign_scalar` → `expand` (all of src/assign.rs's walk, both backends; `&mut` references as document locations), `delete` (both backends), the `resolve`/`resolve_mut` walks, `Index::from_str`, `Index::for_len` — `Jp.Tie.genStep` is one step made of regenerated functions only",
  "C11": "Lean theorems: one commuting square per mutator between the byte-level PointerBuf operation and the deque operation, lifted to every finite history (history_refines, history_text, history_decoded), out-of-range replace, append with root neutral. Correspondence: lock-step histories incl. exhaustive length ≤ 3.",
  "C12": "Lean theorems: each of the eight PointerIndex loops returns exactly the span of the token range the range table denotes (for every bound value, unbounded Nat: no overflow, Excluded(usize::MAX) ⇒ None), spans are the sub-list's text, split_at succeeds iff byte k is '/', pieces re-concatenate, no panic. Correspondence: Option + (offset,len) from address arithmetic.",
  "C13": "Lean theorems: starts_with/strip_prefix/ends_with/strip_suffix ⇔ list prefix/suffix on token lists (with the documented root exception), intersection = longest common prefix (symmetric, idempotent, root), concat = append (associative, root neutral), '/foo' is not a prefix of '/foobar'. Correspondence on adversarial pairs/triples.",
  "C14": "Lean theorems: NoLeadingSlash iff non-empty and not starting with '/', otherwise complete/pointer/source offsets are the first bad '~', the nearest '/' at or before it and their difference; the report keeps error and input; the label lies inside the string and starts at the '~'. Correspondence: offsets, report parts, label (exhaustive rejected strings ≤ 6/7).",
- "C15": "Lean theorems: on every error of resolve/resolve_mut/assign, position = index of the failing token, offset = Σ(1+|enc|) of the preceding tokens, get(position)/split_at(offset) cut there, payloads, label covers the token. Correspondence: pos/off/payload/label/get/split_at on all six walks.",
+ "C15": "the four `resolve`/`resolve_mut` walks (json and toml), `Assign::assign` → `assign_value` → `assign_array` / `assign_object` / `assign_scalar` → `expand` (all of src/assign.rs's walk, both backends; `&mut` references as document locations) with its position/offset bookkeeping, `parse_index`, `Index::from_str`, `Index::for_len`",
  "C16": "Lean theorems: Index::from_str = the declarative index grammar incl. error classification, Display round trips both ways, truthful errors, exact for_len/for_len_incl/for_len_unchecked. Correspondence: exhaustive small alphabet ≤ 5 + numbers around 2^64 + bound grid.",
  "C17": "Lean theorems (shallow by nature): each modelled PartialEq/PartialOrd impl = text equality / lexCmp; lexCmp is a total order consistent with ==; equal hash inputs. The deciding part is the per-impl differential on ordered pairs (20 eq + 20 ord forms), plus hash/map laws on the real crate.",
  "C18": "Lean theorems: serialize = text, deserialize∘serialize = ok, invalid refused, conversions are the identity on the text, Token::from(int) is canonical decimal. Correspondence: serde round trips, every conversion incl. Box with several capacities, 12 integer types.",
